@@ -33,8 +33,8 @@ CLAIMED.update({
 CLAIMED.update({
  "C04": dict(engine="ekmsim", cat="exploration", ref="DESIGN.md §3 C04",
    technique="deterministic simulation: seeded key-manager histories with restarts, crash/error injection at the k-th storage call and a fake clock; history oracle over every released signature",
-   text="Seeded histories of add/remove/re-add share, reactivation bump, attestation and block signing at or below the clock, clock advances, restarts on the same database, operations interrupted at any storage call (crash before/after, storage error) and deleted/corrupted protection records against the real ekm + eth2-key-manager signer; every released signature is judged against the whole life of the share (double vote, surround, double proposal, signing without a readable record). Level is exploration (fault points are sampled per operation, not enumerated).",
-   note="Concurrent signing requests are NOT covered (scenario built but disarmed: see DESIGN.md §3 C04). Trusted: fake clock, MemDB stub (real in-memory Badger in 1/6 of runs), history oracle."),
+   text="Seeded histories of add/remove/re-add share, reactivation bump, attestation and block signing at or below the clock, clock advances, restarts on the same database, operations interrupted at any storage call (crash before/after, storage error) and deleted/corrupted protection records against the real ekm + eth2-key-manager signer; every released signature is judged against the whole life of the share (double vote, surround, double proposal, signing without a readable record). One run in five is the concurrent scenario: two overlapping signing requests (two attestations for one target, two blocks for one slot, attestation+block, two shares) as real goroutines that park at every storage call, interleaved from the step's sub-seed by a lock-aware scheduler. New fault kind: reads keep failing while writes succeed. Level is exploration (fault points and interleavings are sampled, not enumerated).",
+   note="On the unchanged tree two overlapping requests of the same kind for one share deadlock inside the eth2-key-manager dependency (nothing is released: diagnostic probe, the goroutines are abandoned and the node restarted); the concurrent scenario therefore runs outside the synctest bubble with a clock injected through the key manager's BeaconNetwork dependency. Trusted: fake clock, MemDB stub (real in-memory Badger in 1/6 of the sequential runs), history oracle, goroutine wait reasons from runtime.Stack."),
  "C11": dict(engine="regsim", cat="exploration", ref="DESIGN.md §3 C11",
    technique="deterministic simulation: seeded contract-event logs through the real event handler; executable reference model of the registration rules; re-partitioning and restart comparison",
    text="Seeded sequences of all 8 registry events (ValidatorAdded valid or malformed in exactly one of 12 ways) ABI-encoded and fed through HandleBlockEventsStream; after every block the node's state through its getters must equal a reference model written from the statement, a freshly booted node on the same database must show the same, and the same log re-partitioned into blocks must end in the same database.",
